@@ -3,6 +3,10 @@ use fv::engine::*;
 use fv::*;
 use std::path::PathBuf;
 
+// guard-page allocation inside `galloc::with_guard` sections (see galloc.rs)
+#[global_allocator]
+static ALLOC: fv::galloc::GuardAlloc = fv::galloc::GuardAlloc;
+
 macro_rules! for_prop {
     ($id:expr, $f:ident, $($arg:expr),*) => {
         match $id {
